@@ -37,6 +37,9 @@ impl DetectProp for C09 {
         if idx % 3 == 1 {
             c = multi_candidate_case(rng);
         }
+        if idx % 3 == 2 {
+            c = similar_rejection_case(rng);
+        }
         c
     }
     fn directed(&self, thorough: bool) -> Vec<Case> {
@@ -108,8 +111,9 @@ impl DetectProp for C09 {
             };
             if !early_exit {
                 let excl: Vec<String> = s.excl.iter().filter_map(|n| charset_normalizer_rs::utils::iana_name(n).map(|x| x.to_string())).collect();
+                let incl: Vec<String> = s.incl.iter().filter_map(|n| charset_normalizer_rs::utils::iana_name(n).map(|x| x.to_string())).collect();
                 for e in supported() {
-                    if all.iter().any(|x| x == e) || excl.iter().any(|x| x == e) {
+                    if all.iter().any(|x| x == e) || excl.iter().any(|x| x == e) || (!incl.is_empty() && !incl.iter().any(|x| x == e)) {
                         continue;
                     }
                     let mut s1 = s.clone();
@@ -119,7 +123,7 @@ impl DetectProp for C09 {
                             cx.rep.count("oracle:accepted-alone-but-missing");
                             // must be explained by a rejected similar code page
                             let explained = supported().iter().any(|f| {
-                                vh::is_cp_similar(e, f) && !all.iter().any(|x| x == f) && {
+                                vh::is_cp_similar(e, f) && !all.iter().any(|x| x == f) && (incl.is_empty() || incl.iter().any(|x| x == f)) && {
                                     let mut s2 = s.clone();
                                     s2.incl = vec![f.to_string()];
                                     matches!(real_detect(&case.bytes, &s2), Outcome::Ok(v) if v.is_empty())
